@@ -64,7 +64,7 @@ def run(ctx):
     pairs = [(("DirectedEdge", "ab"), ("DirectedEdge", "ab")), (("DirectedEdge", "ab"), ("DirectedEdge", "ba")), (("DirectedEdge", "ab"), ("UnDirectedEdge", "ab")),
              (("UnDirectedEdge", "ba"), ("DirectedEdge", "aa")), (("SymTwo", "ab"), ("DirectedEdge", "ac")), (("DirectedEdge", "aa"), ("DirectedEdge", "bb"))]
     for links in singles + pairs:
-        for stale, cbs in itertools.product((None, 0, 1, 7), (False, True)):
+        for stale, cbs in itertools.product((None, 0, 1, 7, "equal-to-member"), (False, True)):
             if stale is not None and not any("c" in e for _, e in links):
                 continue
             try:
@@ -92,7 +92,14 @@ def run(ctx):
 
 def evaluate(h, rec, fn, links, stale, cbs):
     h.reset()
-    V = {n: h.new("Vertex", n) for n in "abc"}
+    if stale == "equal-to-member":
+        # user vertex class with value equality: the outside vertex c compares equal to the member b
+        V = {n: h.I.call(h.sym["EqVert"], [{"a": 1, "b": 2, "c": 2}[n]], {}) for n in "abc"}
+        for n, v in V.items():
+            v.name = n
+        stale = None
+    else:
+        V = {n: h.new("Vertex", n) for n in "abc"}
     V["N"] = None
     L = []
     for i, (k, e) in enumerate(links):
